@@ -7,6 +7,7 @@ import (
 	"math/rand"
 	"runtime"
 	"strings"
+	"sync"
 	"sync/atomic"
 	"time"
 
@@ -36,12 +37,12 @@ func (*c07) Rule() string {
 	return "each case = one script family (tight for{}, loops with calls/closures/for-in, unbounded self tail recursion in return and statement form, long finite runs, short runs, runs failing with a run-time error near the cancel instant) parameterised by a host variable (limit = -1: never ends, limit = n: ends) and one cancellation instant chosen as a LOGICAL instant: " +
 		"the VM probe cancels the context from inside the VM goroutine exactly when the k-th instruction is dispatched (k = 0: already cancelled, 1, 2, …, last, after finish), while the build-tagged yield points perturb the caller side (between goroutine start and select, before Abort, before the flag reset). " +
 		"Monitors: returned error is ctx.Err() or — only if the run had finished — the run's own result; instructions dispatched while the abort flag is set <= 1; the flag becomes visible within 5*10^7 instructions and 10 s after cancel; no goroutine with VM frames survives the call; a following run on the same Compiled with a finite limit gives the expected value. " +
-		"Also direct VM reuse (NewVM, Run, Abort, Run). Everything runs under the Go race detector. distinct = distinct (script, limit, instant); non-trivial = the cancel instant fell strictly inside the run"
+		"Also direct VM reuse (NewVM, Run aborted at any call depth, Run again), a cancellation that lands inside a slow native call (RunContext may return only after the VM goroutine is done), and several callers sharing one Compiled whose contexts expire while another run is active (nothing may stay locked or leaked). Everything runs under the Go race detector. distinct = distinct (script, limit, instant); non-trivial = the cancel instant fell strictly inside the run"
 }
 func (*c07) Assumptions() []string {
 	return []string{
 		"promptness is measured in dispatched instructions from the moment the abort flag is set (scheduler latency between cancel() and Abort() is outside the engine)",
-		"a single long-running native call is outside the claim and not generated",
+		"how long a native call takes is outside the claim (the VM cannot interrupt it); what is claimed and checked is that RunContext returns only once the VM goroutine has left it",
 		"wall-clock limits act only as watchdogs together with an instruction bound",
 	}
 }
@@ -151,6 +152,14 @@ func (c *c07) RunCase(r *fw.Rec, cs fw.Case) {
 	rng := cs.Rng("c07")
 	if cs.Index%12 == 11 {
 		c.vmReuse(r, rng)
+		return
+	}
+	if cs.Index%24 == 10 {
+		c.slowNative(r, rng)
+		return
+	}
+	if cs.Index%24 == 22 {
+		c.twoCallers(r, rng)
 		return
 	}
 	sc := c07Scripts[cs.Index%len(c07Scripts)]
@@ -471,8 +480,247 @@ func vmReuseAfterAbort(r *fw.Rec, rng *rand.Rand) {
 	r.Distinct("vmreuse", sc.name, fmt.Sprint(k), fmt.Sprint(early))
 }
 
+// tengoGoroutines counts goroutines (other than the caller's) that have any frame of the engine on their stack or were
+// started by it: the VM goroutine of RunContext, but also helpers the engine may start around its lock or its context.
+func tengoGoroutines() (int, string) {
+	buf := make([]byte, 1<<20)
+	n := runtime.Stack(buf, true)
+	c, first := 0, ""
+	for i, g := range strings.Split(string(buf[:n]), "\n\n") {
+		if i == 0 {
+			continue // the calling goroutine
+		}
+		if strings.Contains(g, "github.com/d5/tengo/v2.") {
+			c++
+			if first == "" {
+				first = trunc(g, 1500)
+			}
+		}
+	}
+	return c, first
+}
+
+// manualCtx is a context whose deadline "passes" when expire is called.
+type manualCtx struct {
+	done chan struct{}
+	once sync.Once
+	dead atomic.Bool
+}
+
+func (m *manualCtx) Deadline() (time.Time, bool)   { return time.Time{}, false }
+func (m *manualCtx) Done() <-chan struct{}         { return m.done }
+func (m *manualCtx) Value(interface{}) interface{} { return nil }
+func (m *manualCtx) Err() error {
+	if m.dead.Load() {
+		return context.DeadlineExceeded
+	}
+	return nil
+}
+func (m *manualCtx) expire() { m.once.Do(func() { m.dead.Store(true); close(m.done) }) }
+
+// slowHost is a native function that takes a while (it sleeps; it neither knows the context nor waits for the harness),
+// and records whether the VM is inside it.
+type slowHost struct {
+	inCall  atomic.Int32
+	entered chan struct{}
+	d       time.Duration
+}
+
+func (h *slowHost) fn() *tengo.UserFunction {
+	return &tengo.UserFunction{Name: "slow", Value: func(args ...tengo.Object) (tengo.Object, error) {
+		h.inCall.Store(1)
+		select {
+		case h.entered <- struct{}{}:
+		default:
+		}
+		time.Sleep(h.d)
+		h.inCall.Store(0)
+		return &tengo.Int{Value: 1}, nil
+	}}
+}
+
+// slowNative: the context is cancelled while the script is inside a native call that takes a few hundred milliseconds.
+// RunContext may return only once the VM goroutine is done: when it returns, the VM must not be inside the native call
+// any more, no goroutine of the engine may be left, and the same Compiled must run again correctly.
+func (c *c07) slowNative(r *fw.Rec, rng *rand.Rand) {
+	h := &slowHost{entered: make(chan struct{}, 1), d: time.Duration(250+rng.Intn(300)) * time.Millisecond}
+	src := "out := 0; for i := 0; i < reps; i++ { out += slow(i) }; out += limit"
+	s := tengo.NewScript([]byte(src))
+	_ = s.Add("limit", 5)
+	_ = s.Add("reps", 3)
+	_ = s.Add("slow", h.fn())
+	cp, err := s.Compile()
+	if err != nil {
+		r.Inc("harness-compile-error")
+		return
+	}
+	var ctx context.Context
+	ctx, cancel := context.WithCancel(context.Background())
+	defer cancel()
+	useDeadline := rng.Intn(2) == 0
+	if useDeadline {
+		// a context that ends with DeadlineExceeded at an instant the harness chooses (no timer involved)
+		mc := &manualCtx{done: make(chan struct{})}
+		ctx, cancel = mc, mc.expire
+	}
+	retCh := make(chan error, 1)
+	go func() { retCh <- safely(func() error { return cp.RunContext(ctx) }) }()
+	select {
+	case <-h.entered:
+	case <-time.After(60 * time.Second):
+		fw.AbandonInconclusive("the script did not reach its native call within 60 s")
+	}
+	cancel()
+	done := make(chan struct{})
+	var runErr error
+	go func() { runErr = <-retCh; close(done) }()
+	switch fw.WaitOrHang(done, 60*time.Second) {
+	case "hang":
+		r.Violate("no-return:slow-native", "RunContext did not return after a cancellation during a native call", map[string]interface{}{"script": src})
+		panic("verif: RunContext hung; worker abandoned")
+	case "inconclusive":
+		fw.AbandonInconclusive("RunContext had not returned after 1200 s on a loaded machine")
+	}
+	inside := h.inCall.Load()
+	r.Eval()
+	r.Inc("slow-native")
+	detail := map[string]interface{}{"script": src, "native_call_ms": h.d.Milliseconds(), "deadline_instead_of_cancel": useDeadline, "returned_error": fmt.Sprint(runErr)}
+	if inside != 0 {
+		r.Violate("returned-while-vm-running", "RunContext returned while the VM goroutine was still inside a native call (the run was left behind)", detail)
+		time.Sleep(h.d) // let it drain before the next case
+		return
+	}
+	if runErr == nil || runErr != ctx.Err() {
+		r.Violate("slow-native:wrong-result", "RunContext returned something other than ctx.Err() although the context ended during the run", detail)
+		return
+	}
+	if n, g := tengoGoroutines(); n > 0 {
+		time.Sleep(20 * time.Millisecond)
+		if n, g = tengoGoroutines(); n > 0 {
+			detail["goroutine"] = g
+			r.Violate("goroutine-leak", "a goroutine of the engine is still alive after RunContext returned", detail)
+			return
+		}
+	}
+	h.d = time.Millisecond
+	_ = cp.Set("limit", 7)
+	_ = cp.Set("reps", 2)
+	if e := safely(func() error { return cp.RunContext(context.Background()) }); e != nil || canon(cp.Get("out").Object()) != "i9" {
+		detail["rerun_error"] = fmt.Sprint(e)
+		detail["rerun_out"] = canon(cp.Get("out").Object())
+		r.Violate("rerun:wrong-result:slow-native", "re-running the same Compiled after a cancellation during a native call gave a wrong result", detail)
+		return
+	}
+	r.Inc("slow-native-checked")
+	r.Distinct("slow-native", fmt.Sprint(h.d), fmt.Sprint(useDeadline), fmt.Sprint(rng.Int63()))
+}
+
+// twoCallers: two goroutines share ONE Compiled. While the first run is active (inside a native call), the second
+// caller's context expires. Whatever the second call returns, afterwards nothing may be left behind: every further
+// Get/Set/Run/Clone returns, and no goroutine of the engine survives.
+func (c *c07) twoCallers(r *fw.Rec, rng *rand.Rand) {
+	h := &slowHost{entered: make(chan struct{}, 1), d: time.Duration(150+rng.Intn(200)) * time.Millisecond}
+	src := "out := slow(0) + limit"
+	s := tengo.NewScript([]byte(src))
+	_ = s.Add("limit", 5)
+	_ = s.Add("slow", h.fn())
+	cp, err := s.Compile()
+	if err != nil {
+		r.Inc("harness-compile-error")
+		return
+	}
+	aCh := make(chan error, 1)
+	go func() { aCh <- safely(func() error { return cp.RunContext(context.Background()) }) }()
+	select {
+	case <-h.entered:
+	case <-time.After(60 * time.Second):
+		fw.AbandonInconclusive("the script did not reach its native call within 60 s")
+	}
+	nB := 1 + rng.Intn(3)
+	bCh := make(chan error, nB)
+	for i := 0; i < nB; i++ {
+		go func(i int) {
+			ctxB, cancelB := context.WithTimeout(context.Background(), time.Duration(5+10*i)*time.Millisecond)
+			defer cancelB()
+			bCh <- safely(func() error { return cp.RunContext(ctxB) })
+		}(i)
+	}
+	done := make(chan struct{})
+	var errs []error
+	go func() {
+		errs = append(errs, <-aCh)
+		for i := 0; i < nB; i++ {
+			errs = append(errs, <-bCh)
+		}
+		close(done)
+	}()
+	detail := map[string]interface{}{"script": src, "native_call_ms": h.d.Milliseconds(), "second_callers": nB}
+	switch fw.WaitOrHang(done, 60*time.Second) {
+	case "hang":
+		r.Violate("no-return:two-callers", "RunContext calls sharing one Compiled did not all return", detail)
+		panic("verif: RunContext hung; worker abandoned")
+	case "inconclusive":
+		fw.AbandonInconclusive("RunContext had not returned after 1200 s on a loaded machine")
+	}
+	r.Eval()
+	r.Inc("two-callers")
+	for i, e := range errs {
+		if p, ok := isPanic(e); ok {
+			detail["stack"] = trunc(p.stack, 2000)
+			r.Violate("panic", "RunContext panicked", detail)
+			return
+		}
+		if e != nil && !(errors.Is(e, context.DeadlineExceeded) && i > 0) {
+			detail["error"] = e.Error()
+			r.Violate("two-callers:unexpected-error", "a RunContext call returned an error that is neither its own context's nor the run's", detail)
+			return
+		}
+	}
+	time.Sleep(time.Duration(rng.Intn(30)) * time.Millisecond)
+	// liveness of the object afterwards
+	live := make(chan error, 1)
+	go func() {
+		live <- safely(func() error {
+			_ = cp.Get("out")
+			_ = cp.IsDefined("out")
+			if e := cp.Set("limit", 11); e != nil {
+				return e
+			}
+			_ = cp.Clone()
+			h.d = time.Millisecond
+			return cp.RunContext(context.Background())
+		})
+	}()
+	liveDone := make(chan struct{})
+	var liveErr error
+	go func() { liveErr = <-live; close(liveDone) }()
+	switch fw.WaitOrHang(liveDone, 60*time.Second) {
+	case "hang":
+		r.Violate("unusable-after-timeout:deadlock", "Get/Set/Clone/RunContext did not return after a second caller's context had expired while a run was active (lock left held?)", detail)
+		panic("verif: worker abandoned after a hang")
+	case "inconclusive":
+		fw.AbandonInconclusive("Get/Set/RunContext had not returned after 1200 s on a loaded machine")
+	}
+	if liveErr != nil || canon(cp.Get("out").Object()) != "i12" {
+		detail["rerun_error"] = fmt.Sprint(liveErr)
+		detail["rerun_out"] = canon(cp.Get("out").Object())
+		r.Violate("rerun:wrong-result:two-callers", "the shared Compiled does not run correctly afterwards", detail)
+		return
+	}
+	if n, g := tengoGoroutines(); n > 0 {
+		time.Sleep(50 * time.Millisecond)
+		if n, g = tengoGoroutines(); n > 0 {
+			detail["goroutine"] = g
+			r.Violate("goroutine-leak", "a goroutine of the engine is still alive after all calls returned", detail)
+			return
+		}
+	}
+	r.Inc("two-callers-checked")
+	r.Distinct("two-callers", fmt.Sprint(nB), fmt.Sprint(rng.Int63()))
+}
+
 func (c *c07) Finish(m *fw.Merged, tier string) {
-	for _, k := range []string{"entry:Script.RunContext", "entry:Compiled.RunContext", "cancel-inside-run", "result:ctx.Err", "result:own(nil)", "result:own(error)", "reruns-checked", "vm-reuse"} {
+	for _, k := range []string{"entry:Script.RunContext", "entry:Compiled.RunContext", "cancel-inside-run", "result:ctx.Err", "result:own(nil)", "result:own(error)", "reruns-checked", "vm-reuse", "vm-reuse-reruns-checked", "slow-native-checked", "two-callers-checked"} {
 		if m.Counters[k] == 0 {
 			m.Fail("never observed: " + k)
 		}
